@@ -216,6 +216,7 @@ def run_one(job):
 
 if __name__ == '__main__':
     files = FILES
+    only_lines = None
     out = '/tmp/mutants.json'
     limit = None
     a = sys.argv[1:]
@@ -227,6 +228,11 @@ if __name__ == '__main__':
             out = a.pop(0)
         elif x == '--limit':
             limit = int(a.pop(0))
+        elif x == '--lines':        # file.py:30,56,60  (only these lines)
+            spec = a.pop(0)
+            fpart, lpart = spec.split(':')
+            files = [f for f in FILES if f.endswith(fpart)]
+            only_lines = {int(v) for v in lpart.split(',')}
     jobs = []
     for rel in files:
         src = open(os.path.join(REPO, rel)).read()
@@ -234,6 +240,9 @@ if __name__ == '__main__':
         # sanity: the unparsed, unmutated module is a benign variant
         jobs.append((rel, 'IDENTITY (ast.unparse of the unchanged module)', ast.unparse(tree)))
         for desc, path, kind in sites(tree):
+            if only_lines is not None and int(desc.split(':')[0]) \
+                    not in only_lines:
+                continue
             try:
                 m = mutate(tree, path, kind)
             except Exception as ex:
@@ -252,5 +261,8 @@ if __name__ == '__main__':
     json.dump(res, open(out, 'w'), indent=0)
     surv = [r for r in res if r[2] == 'survived']
     und = [r for r in surv if not any(v.startswith('V:') for v in r[3].values())]
+    if only_lines is not None:
+        for r in res:
+            print(r[1][:70], '|', r[2], r[3])
     print(f'{len(res)} mutants, {len(surv)} survive the suite, {len(surv) - len(und)} reported by a rule, '
           f'{len(und)} unreported')
